@@ -518,6 +518,21 @@ func sweep(thorough bool) {
 			}
 		}
 	}
+	// exact head-length boundaries: a key, a value or a message entry count of exactly 23/24/25 and 255/256/257 octets
+	// (where the CBOR head of the string grows by one octet), each followed by a value that fills the rest of the
+	// message: the accounted size of the first entry decides how much the second may take
+	for _, mtu := range []uint16{128, 300, 1300} {
+		for _, klen := range []int{20, 21, 22, 23, 24} { // "m:" + name: total key length klen+2
+			name := strings.Repeat("k", klen)
+			for _, vlen := range []int{1, 22, 23, 24, 25, 26, 254, 255, 256, 257} {
+				if vlen+klen+12 > int(mtu) {
+					continue
+				}
+				run(script{mtu: mtu, msgs: []msg{{"m", name, val(vlen, 1), 1, false}, {"n", "z", val(2*int(mtu), 9), 1, false}}})
+				run(script{mtu: mtu, buffered: 16, msgs: []msg{{"m", name, val(vlen, 1), 1, false}, {"n", "z", val(2*int(mtu), 9), 1, false}}})
+			}
+		}
+	}
 	// remainders around the 256 boundary before a second key
 	for _, mtu := range []uint16{700, 1300} {
 		for _, kl := range []int{1, 24} {
